@@ -25,7 +25,8 @@ func init() {
 			"(no-other-writes) the DynamoDB client interfaces expose only Get/Put/Query(+Options), no other SQL constant reaches database/sql, nothing but Store/constructor writes MemoryMetastore.Envelopes; " +
 			"(store-result) Store returns true only on the err == nil edge of the backend write (after the map write) and false everywhere else; (consistent-reads) every GetItemInput/QueryInput has ConsistentRead=true, " +
 			"LoadLatest queries are descending Limit 1 on the id key, SQL constants have the WHERE / ORDER BY created DESC LIMIT 1 shape, memory reads hold the lock; (field-fidelity) the wire structs and the " +
-			"struct-to-struct conversions carry every field from its namesake, base64 on both sides. What real databases do with these requests is not decided.",
+			"struct-to-struct conversions carry every field from its namesake, base64 on both sides, an optional ParentKeyMeta converted exactly where the source is non-nil; (key-fidelity) every back end addresses a row by exactly (keyID, created) — " +
+			"Envelopes[keyID][created], bind (keyID, time.Unix(created,0)), Id = S:keyID / Created = N:FormatInt(created,10) — in Store and in Load; Store reports true after a successful write; MemoryMetastore's lock is balanced. What real databases do with these requests is not decided.",
 		NotDecided:  []string{"behaviour of real databases / DynamoDB semantics of the requests", "ordering over histories, replica consistency", "that MemoryMetastore.LoadLatest picks the maximum (value-level; test-only backend)", "SQL driver behaviour, table schema (primary key on (id, created) is assumed from docs/Metastore.md)"},
 		Assumptions: []string{"the SQL table has PRIMARY KEY (id, created) as documented", "DynamoDB attribute_not_exists(<hash key>) rejects an existing item with the same primary key"},
 		Tech:        "static analysis: request-shape analysis (constant-folded struct-literal fields, SQL constants tokenised), guarded-by-condition, lock-state dataflow, interface method-set and who-writes checks across all Metastore implementations",
